@@ -121,6 +121,10 @@ func ToGo(v rc.Val) any {
 		return cborTag(v.T, ToGo(v.A[0]))
 	case rc.KRaw:
 		return cborRaw(v.B)
+	case rc.KSimple:
+		return cborSimple(uint8(v.U))
+	case rc.KUndef:
+		return cborRaw([]byte{0xf7})
 	}
 	panic(fmt.Sprintf("bridge: cannot convert kind %d to Go", v.K))
 }
